@@ -337,6 +337,8 @@ def oracle(ctx, c, r):
 
     if c["kind"] == "fstate":
         return oracle_fstate(ctx, c, r)
+    if c["kind"] == "gmat":
+        return oracle_gmat(ctx, c, r)
     if c["kind"] == "state":
         N, D = c["N"], 2 ** c["N"]
         vec = [0j] * D
@@ -524,6 +526,112 @@ def oracle_fstate(ctx, c, r):
 
 
 
+# ------------------------------------------------------------------------------------------------
+# GENERAL complex matrices / vectors (non-Hermitian, non-normalised, non-positive) through the direct constructors:
+# documented definitions incl. conjugation in the first slot. exact=True: Gaussian integers (also tied to the model);
+# exact=False: generic floats (precision stream).
+def gen_gmat_case(rng, N, exact=True, special=None):
+    D = 2 ** N
+    val = (lambda: _gi(rng, 4)) if exact else (lambda: [_fl(rng), _fl(rng)])
+    style = special or rng.choice(["dense", "dense", "sparse", "nilpotent", "antiherm"])
+    A = [[val() for _ in range(D)] for _ in range(D)]
+    B = [[val() for _ in range(D)] for _ in range(D)]
+    if style == "sparse":
+        A = [[x if rng.random() < 0.3 else [0, 0] for x in r] for r in A]
+    if style == "nilpotent":      # strictly upper triangular, e.g. |g><r|
+        A = [[A[r][c] if c > r else [0, 0] for c in range(D)] for r in range(D)]
+        if not any(x != [0, 0] for r in A for x in r):
+            A[0][D - 1] = [1, 0]
+        B = A if rng.random() < 0.5 else B
+    if style == "antiherm":       # A = i H with H Hermitian, B = H
+        H = [[[A[r][c][0] + A[c][r][0], A[r][c][1] - A[c][r][1]] for c in range(D)] for r in range(D)]
+        A = [[[-x[1], x[0]] for x in r] for r in H]
+        B = H
+    return {"kind": "gmat", "N": N, "exact": exact, "style": style, "A": A, "B": B,
+            "u": [val() for _ in range(D)], "v": [val() for _ in range(D)], "scalar": val()}
+
+
+def impl_gmat(c):
+    import torch
+    from emu_sv.state_vector import StateVector, inner
+    from emu_sv.density_matrix_state import DensityMatrix
+    from emu_sv.dense_operator import DenseOperator
+    from emu_sv.sparse_operator import SparseOperator
+    T = lambda M: torch.tensor([[cplx(x) for x in r] for r in M], dtype=torch.complex128)
+    A, B = T(c["A"]), T(c["B"])
+    u = StateVector(torch.tensor([cplx(p) for p in c["u"]], dtype=torch.complex128), gpu=False)
+    v = StateVector(torch.tensor([cplx(p) for p in c["v"]], dtype=torch.complex128), gpu=False)
+    a = cplx(c["scalar"])
+    dA, dB, daA = DensityMatrix(A, gpu=False), DensityMatrix(B, gpu=False), DensityMatrix(a * A, gpu=False)
+    oA, oB = DenseOperator(A, gpu=False), DenseOperator(B, gpu=False)
+    sA, sB = SparseOperator(A.to_sparse_csr(), gpu=False), SparseOperator(B.to_sparse_csr(), gpu=False)
+    tl = lambda t: [complex(x) for x in t.reshape(-1).tolist()]
+    one = lambda z: [complex(z)]
+    out = {"dm_overlap": one(dA.overlap(dB)), "dm_overlap_rev": one(dB.overlap(dA)),
+           "dm_overlap_scaled": one(daA.overlap(dB)), "dm_overlap_self": one(dA.overlap(dA)),
+           "inner": one(u.inner(v)), "inner_fn": one(inner(u, v)), "inner_rev": one(v.inner(u)),
+           "inner_scaled": one((a * u).inner(v)), "sv_overlap": one(u.overlap(v)),
+           "apply": tl(oA.apply_to(v).data), "expect": one(oA.expect(v)), "matmul": tl((oA @ oB).data),
+           "op_add": tl((oA + oB).data), "op_rmul": tl((a * oA).data),
+           "sp_apply": tl(sA.apply_to(v).data), "sp_expect": one(sA.expect(v)),
+           "sp_add": tl((sA + sB).data.to_dense()), "sp_rmul": tl((a * sA).data.to_dense()),
+           "n_qudits": [complex(dA.n_qudits)]}
+    return out
+
+
+def ref_gmat(c):
+    import numpy as np
+    A = np.array([[cplx(x) for x in r] for r in c["A"]], dtype=complex)
+    B = np.array([[cplx(x) for x in r] for r in c["B"]], dtype=complex)
+    u = np.array([cplx(p) for p in c["u"]], dtype=complex)
+    v = np.array([cplx(p) for p in c["v"]], dtype=complex)
+    a = cplx(c["scalar"])
+    tr = lambda X, Y: np.trace(X.conj().T @ Y)          # Tr(X^dagger Y)
+    ip = np.vdot(u, v)
+    return {"dm_overlap": [tr(A, B)], "dm_overlap_rev": [np.conj(tr(A, B))], "dm_overlap_scaled": [np.conj(a) * tr(A, B)],
+            "dm_overlap_self": [np.sum(A.conj() * A)], "inner": [ip], "inner_fn": [ip], "inner_rev": [np.conj(ip)],
+            "inner_scaled": [np.conj(a) * ip], "sv_overlap": [abs(ip) ** 2], "apply": A @ v,
+            "expect": [np.vdot(v, A @ v)], "matmul": A @ B, "op_add": A + B, "op_rmul": a * A, "sp_apply": A @ v,
+            "sp_expect": [np.vdot(v, A @ v)], "sp_add": A + B, "sp_rmul": a * A, "n_qudits": [c["N"]]}
+
+
+def oracle_gmat(ctx, c, r):
+    import numpy as np
+    ok = True
+    for name, want in ref_gmat(c).items():
+        got = np.array(r[name], dtype=complex)
+        want = np.asarray(want, dtype=complex).reshape(-1)
+        scale = max(1.0, float(np.max(np.abs(want))))
+        err = float(np.max(np.abs(got - want))) if got.shape == want.shape else float("inf")
+        tol = 0.0 if (c["exact"] and name != "sv_overlap") else PREC_TOL * scale
+        if not (err <= tol):
+            ok = False
+            key = ("dm-overlap-not-sesquilinear" if name.startswith("dm_overlap") else
+                   "inner-not-sesquilinear" if name.startswith("inner") else "general-matrix-" + name)
+            ctx.violation(f"{name} on general (non-Hermitian) complex data deviates from its definition by {err:.3e} "
+                          f"(N={c['N']}, style={c['style']}, {'exact' if c['exact'] else 'float'})",
+                          {"case": c, "finding_key": key, "max_abs_error": err})
+    return ok
+
+
+def gmat_exprs(c, r):
+    D = 2 ** c["N"]
+    A = dyl([cplx(x) for row in c["A"] for x in row])
+    B = dyl([cplx(x) for row in c["B"] for x in row])
+    u, v = dyl([cplx(p) for p in c["u"]]), dyl([cplx(p) for p in c["v"]])
+    a = dy(cplx(c["scalar"]))
+    mA, mB = f"({_nat(D)}, {A})", f"({_nat(D)}, {B})"
+    return [("dm_overlap", scal(f"dm_overlap DyK {A} {B}", r["dm_overlap"][0]), True),
+            ("dm_overlap_scaled", scal(f"dm_overlap DyK (@vscale DyK {a} {A}) {B}", r["dm_overlap_scaled"][0]), True),
+            ("dm_overlap_rev", scal(f"dm_overlap DyK {B} {A}", r["dm_overlap_rev"][0]), True),
+            ("inner", scal(f"sv_inner DyK {u} {v}", r["inner"][0]), True),
+            ("inner_scaled", scal(f"sv_inner DyK (sv_rmul DyK {a} {u}) {v}", r["inner_scaled"][0]), True),
+            ("apply", diff(f"mapply DyK {mA} {v}", r["apply"]), -1),
+            ("expect", scal(f"mexpect DyK {mA} {v}", r["expect"][0]), True),
+            ("matmul", diff(f"snd (matmul DyK {mA} {mB})", r["matmul"]), -1)]
+
+
+
 def bits_check(ctx, N):
     """index_to_bitstring on every index of an N-qubit register; returns the list of digit lists."""
     from emu_sv.utils import index_to_bitstring
@@ -548,7 +656,7 @@ def corpus_cases():
 
 
 def run_real(c):
-    return {"state": impl_state, "op": impl_op, "coo": impl_coo, "fstate": impl_fstate}[c["kind"]](c)
+    return {"state": impl_state, "op": impl_op, "coo": impl_coo, "fstate": impl_fstate, "gmat": impl_gmat}[c["kind"]](c)
 
 
 def run(ctx):
@@ -588,6 +696,11 @@ def run(ctx):
         for i in range(ctx.n(5, 30)):
             cases.append(gen_fstate_case(rng, N, atype=ATYPES[i % len(ATYPES)]))
 
+    for N in range(1, 5 if not th else 6):   # general (non-Hermitian) matrices: exact stream (model tie N <= 3) + floats
+        for i in range(ctx.n(2, 16)):
+            cases.append(gen_gmat_case(rng, N, exact=True))
+            cases.append(gen_gmat_case(rng, N, exact=False))
+
     n_model = 0
     for c in cases:
         r = run_real(c)
@@ -598,8 +711,8 @@ def run(ctx):
             k2 = "op-shape/" + c.get("shape", "-") + ("/first-coeff-1-multi-entry" if any(
                 len(q) > 1 and q[0][1] == [1, 0] for _, t in c["ops"] for q, _ in t) else "")
             hist[k2] = hist.get(k2, 0) + 1
-        nontrivial = c["kind"] == "coo" or (c["N"] >= 2 and (c["kind"] in ("state", "fstate") or any(t for _, t in c["ops"])))
-        ctx.count_case({k: c[k] for k in c if k not in ("vec", "other")} | {"oracle_ok": ok}, nontrivial)
+        nontrivial = c["kind"] == "coo" or (c["N"] >= 2 and (c["kind"] in ("state", "fstate", "gmat") or any(t for _, t in c["ops"])))
+        ctx.count_case({k: c[k] for k in c if k not in ("vec", "other", "A", "B", "u", "v")} | {"oracle_ok": ok}, nontrivial)
         if not model_ok:
             continue
         if c["kind"] == "state" and c["N"] <= (6 if th else 5):
@@ -608,6 +721,8 @@ def run(ctx):
             exprs = op_exprs(c, r, sparse_too=c["N"] <= 3)
         elif c["kind"] == "coo":
             exprs = coo_exprs(c, r)
+        elif c["kind"] == "gmat" and c["exact"] and c["N"] <= 3:
+            exprs = gmat_exprs(c, r)
         else:
             continue
         n_model += 1
